@@ -763,6 +763,21 @@ func (dc *ClientDnsConnection) AutodetectFragmentSize() (uint32, error) {
 	/* data header adds 2 bytes */
 	log.Infof("will use %d-2=%d", max, max-2)
 
+	// The answer repeats the query name in its question section. The probes were sent with a short name;
+	// a query that carries a full upstream fragment has a name of up to HostnameMaxLen octets, so its
+	// answer is that much bigger than the probe's. Leave room for it, or a path that limits the answer
+	// size passes the probe and then drops the answers to loaded queries.
+	if probe, err := dc.Serializer.EncodeDnsRequest(&commands.TestDownstreamFragmentSizeRequest{UserId: dc.userId, FragmentSize: max}); err == nil {
+		if margin := util.HostnameMaxLen - len(probe.Question[0].Name); margin > 0 {
+			if uint32(margin) >= max {
+				max = 0
+			} else {
+				max -= uint32(margin)
+			}
+			log.Infof("reserving %d bytes for long query names, max=%d", margin, max)
+		}
+	}
+
 	/* need 1200 / 16frags = 75 bytes fragsize */
 	if max < 82 {
 		err := errors.New("Note: this probably won't work well. Try setting -M to 200 or lower, or try other DNS types (-T option).")
